@@ -31,6 +31,17 @@ OBLIGATIONS = [
              "the same node: once every server has answered and every request has finished the read has fired exactly once (never hangs), the node is idle again, it delivers "
              "data iff at least k distinct share numbers have a good share (decoded only from good blocks), otherwise NotEnoughSharesError/NoSharesError; same for the second read",
         outside="Share internals (hash validation), overdue timers firing, more than 2 share numbers / 3 servers, interleavings other than the two orders"),
+    chx("segmented_read", "C46_h", "h_segread",
+        bounds={"quick": {"FS": 12, "RS": 5, "GUESSES": [2, 3, 5, 8]}, "thorough": {"FS": 25, "RS": 10, "GUESSES": [3, 7, 10, 16, 30]}},
+        cases={"quick": [{"hs": 1, "_label": "share"}, {"hs": 0, "_label": "noshare"}],
+               "thorough": [{"gi": i, "_label": "g%d" % i} for i in range(5)]},
+        timeout={"quick": 120, "thorough": 1200},
+        desc="a whole DownloadNode.read(consumer, offset, size) through the real Segmentation (start/_maybe_fetch_next/_fetch_next/_got_segment/_retry_bad_segment/_error), the real "
+             "SegmentFetcher and ShareFinder, on a fresh node that only GUESSES the segment size (smaller, equal or larger than the real one), every offset and size in the file, "
+             "with or without a share, optionally a second identical read: the guess may name the wrong segment (WrongSegmentError) or one beyond the end (BADSEGNUM -> "
+             "BadSegmentNumberError); the read fires exactly once, the node is idle and the producer unregistered afterwards, the consumer received exactly file[offset:offset+size], "
+             "or - without shares - a not-enough-shares error",
+        outside="pause/resume/stopProducing of the consumer (C04), concurrent reads"),
     chx("fetcher_no_dead_state", "C03_h", "h_step",
         bounds={"quick": {"NREC": 2, "NSH": 2, "NSV": 2, "KMAX": 1, "LIMIT": 2, "k": 1}, "thorough": {"NREC": 2, "NSH": 3, "NSV": 2, "KMAX": 2, "LIMIT": 2}},
         cases={"quick": [{"nms": m, "limit": l, "_label": "m%dl%d" % (m, l)} for m in (0, 1) for l in (1, 2)],
